@@ -159,7 +159,10 @@ dispatch_walltime(const struct timespec *inval, int64_t delta)
 		// -1 is special == DISPATCH_TIME_FOREVER == forever
 		return delta >= 0 ? DISPATCH_TIME_FOREVER : (dispatch_time_t)-2ll;
 	}
-	return (dispatch_time_t)-nsec;
+	// range-check: a sum past DISPATCH_TIME_MAX_VALUE must not be encoded,
+	// its bit pattern would denote a time on the monotonic clock
+	return _dispatch_clock_and_value_to_time(DISPATCH_CLOCK_WALL,
+			(uint64_t)nsec);
 }
 
 uint64_t
